@@ -940,14 +940,52 @@ pub fn check_c10(tier: &str) -> i32 {
         Ev::Submit { handle: 1, style, .. } => *style == MStyle::Future,
         _ => true,
     };
+    // the enabled set cuts a reply after 9 bytes; exactly the 7 header bytes is the other interesting cut
+    let header_only = |m: &ClientModel| -> Vec<Ev> {
+        if matches!(m.phase, Phase::InFlight { .. }) && m.partial_rest.is_none() {
+            vec![Ev::ReplyPartial(7)]
+        } else {
+            vec![]
+        }
+    };
     for cfg in &cfgs {
-        let x = Explore { prop: "C10", cfg, depth: depth + 2, max_dev: k, max_requests: 3, aspects: "C", filter: &filter, cost: &default_cost, extra: &no_extra };
+        let x = Explore { prop: "C10", cfg, depth: depth + 2, max_dev: k, max_requests: 3, aspects: "C", filter: &filter, cost: &default_cost, extra: &header_only };
         // from the connected state and from a cold start
         let st = explore(&x, &[connected_prefix()]);
         rep.phase(&format!("from connected, cap={} N={:?}", cfg.cap, cfg.max_timeouts), st, json!({"cfg": cfg}));
         let x = Explore { prop: "C10", cfg, depth: depth.min(5), max_dev: k, max_requests: 2, aspects: "C", filter: &filter, cost: &default_cost, extra: &no_extra };
         let st = explore(&x, &[vec![]]);
         rep.phase(&format!("from cold start, cap={} N={:?}", cfg.cap, cfg.max_timeouts), st, json!({"cfg": cfg}));
+    }
+    // a structured family deeper than the quick bound: a reply cut after n bytes by the loss of the
+    // connection, reconnect, and a request that is answered in time on the new connection
+    {
+        let mut st = Stats::default();
+        let cfg = &cfgs[0];
+        let sub = Ev::Submit { handle: 0, style: MStyle::Future, timeout_ms: 5 };
+        for n in 1..=12usize {
+            for ender in [Ev::ReadError, Ev::Eof] {
+                for style in [MStyle::Future, MStyle::Callback] {
+                    let sub2 = Ev::Submit { handle: 0, style, timeout_ms: 5 };
+                    let path = vec![Ev::Enable(0), Ev::ConnectOk, sub.clone(), Ev::ReplyPartial(n), ender.clone(), Ev::AdvanceToNext, Ev::ConnectOk, sub2.clone(), Ev::ReplyOk, sub2, Ev::ReplyOk];
+                    let r = run_path(cfg, &path);
+                    st.evaluations += 1;
+                    st.traces += 1;
+                    st.transitions += path.len() as u64;
+                    st.class("reply-cut-by-connection-loss");
+                    st.state(&r.model);
+                    st.observe(&r.obs);
+                    for p in r.problems.iter().filter(|p| "CP".contains(p.aspect)) {
+                        st.violation(Violation {
+                            signature: format!("across-connections:{}", p.sig),
+                            summary: format!("path {:?} step {}: {}", path, p.step, p.desc),
+                            replay: json!({"kind": "client-sm", "property": "C10", "cfg": cfg, "events": path, "aspects": "C"}),
+                        });
+                    }
+                }
+            }
+        }
+        rep.phase("reply cut by the loss of the connection, answered request on the next one", st, json!({}));
     }
     // back-pressure: the transport takes only the first n bytes of a request frame and then blocks;
     // time passes, calls are made, the transport drains: the request is still transmitted whole and
